@@ -4,6 +4,7 @@ use crate::engine::*;
 use crate::env::Focus;
 use crate::gen::Weights;
 use crate::hist::*;
+use crate::pairs::*;
 use crate::tp::ALL_TYPES;
 use std::time::Instant;
 
@@ -246,6 +247,101 @@ pub fn regression_replays(id: &str) -> Vec<String> {
     v
 }
 
+pub enum Part {
+    Hist(HistSpec),
+    Pair(PairSpec),
+    C17,
+    C19,
+}
+
+fn nt_ev(name: &'static str) -> fn(&Events) -> bool {
+    match name {
+        "c05" => |e| ev_has(e, "c05_nontrivial"),
+        "c06" => |e| ev_has(e, "c06_nontrivial") || ev_has(e, "c06_disjoint_views_of_one_map"),
+        "c07" => |e| ev_has(e, "c07_difference_strict") || ev_has(e, "c07_removed_by_shorter_cover"),
+        "c08" => |e| ev_has(e, "c08_interesting_annotation"),
+        "c13p" => |e| ev_has(e, "both_nonempty"),
+        _ => |_| false,
+    }
+}
+
+fn pair_spec(id: &'static str, focus: &[u32], accept: Vec<&'static str>, tier: &str, nt: fn(&Events) -> bool) -> PairSpec {
+    let (cases, shards, max_ops) = if tier == "thorough" { (4000, 16, 40) } else { (450, 1, 24) };
+    PairSpec {
+        id,
+        focus: Focus::of(focus),
+        accept,
+        types: all_types(),
+        cases,
+        shards,
+        max_ops,
+        nontrivial: nt,
+    }
+}
+
+const PAIR_NOTE: &str = "one evaluation = one generated pair of views: two maps built by generated histories (shapes contain value-less leftovers; value types u64 and a String newtype), or one map used twice, or a map against a PrefixSet; each operand is reached by a generated navigation program over view/view_at/find/find_exact/find_lpm/left/right; the entry set of each view is computed from the model and cross-checked against view.iter() (mismatches are discarded and counted, they belong to C11/C12)";
+
+pub fn parts(id: &str, tier: &str) -> Option<(Vec<Part>, Info)> {
+    if let Some((spec, info)) = hist_spec(id, tier) {
+        let mut v = vec![];
+        if id == "C15" || id == "C16" {
+            let mut s2 = spec.clone();
+            s2.weights = Weights::canonical();
+            s2.label = if id == "C15" { "C15canon" } else { "C16canon" };
+            v.push(Part::Hist(spec));
+            v.push(Part::Hist(s2));
+        } else if id == "C18" {
+            v.push(Part::Hist(spec));
+            let mut p = pair_spec("C18", &[5, 6, 7, 8, 18], vec!["C18"], tier, |e| ev_has(e, "both_nonempty"));
+            p.types = host_types();
+            v.push(Part::Pair(p));
+        } else {
+            v.push(Part::Hist(spec));
+        }
+        return Some((v, info));
+    }
+    let info = |rule: &'static str| Info {
+        level: "exploration",
+        rule,
+        assumptions: vec![PAIR_NOTE.into()],
+    };
+    match id {
+        "C05" => Some((
+            vec![Part::Pair(pair_spec("C05", &[5], vec!["C05"], tier, nt_ev("c05")))],
+            info("non-trivial = both operands non-empty and (roots differ, or a root is virtual, or an operand tree contains a value-less leftover); distinct by hash of the case; classes.* give the histogram of relative root positions and root kinds"),
+        )),
+        "C06" => Some((
+            vec![Part::Pair(pair_spec("C06", &[6], vec!["C06"], tier, nt_ev("c06")))],
+            info("non-trivial = expected intersection non-empty while some key of one operand is absent from the other, or two disjoint sub-views of one map; distinct by hash of the case"),
+        )),
+        "C07" => Some((
+            vec![Part::Pair(pair_spec("C07", &[7], vec!["C07"], tier, nt_ev("c07")))],
+            info("non-trivial = difference is a strict non-empty subset of the left entries, or an entry is removed from the covering difference only because of a strictly shorter covering prefix; distinct by hash of the case"),
+        )),
+        "C08" => Some((
+            vec![Part::Pair(pair_spec("C08", &[8], vec!["C08"], tier, nt_ev("c08")))],
+            info("non-trivial = case containing an item whose expected annotation is Some with a strictly shorter prefix, or None while the other view is non-empty; distinct by hash of the case"),
+        )),
+        "C17" => Some((
+            vec![Part::C17],
+            Info {
+                level: "exploration",
+                rule: "exhaustive over the 8-bit tuple type (all 2304 (address,length) values incl. host bits, all 2304^2 ordered pairs, all bit indices 0..=255, triples over lengths <= 4), proptest-generated (a, b, c) triples with a controlled number of shared leading bits and boundary lengths for all 14 types; non-trivial = pair with 0 < lcp < min(len) or a boundary length (0, 1, W-1, W); exhaustive pairs are distinct by construction and counted exactly, sampled ones by hash of the case",
+                assumptions: vec!["oracle: u128 bit arithmetic in the harness (covers / lcp / bit), plus a differential against the crate's default trait methods through a newtype that only forwards the three required methods".into(), "`exhaustive: true` refers to the (u8,u8) sub-space only".into()],
+            },
+        )),
+        "C19" => Some((
+            vec![Part::C19],
+            Info {
+                level: "exploration",
+                rule: "one evaluation = a generated state X and a derived state Y (permuted rebuild, leftover debris, strict prefix / suffix / sub-sequence, empty, one value changed, host bits of one stored prefix changed, independent history, clone) plus a rebuilt Z for transitivity; ==, != on maps and sets, clone independence in both directions under a generated operation suffix, collect and serde_json round-trips; non-trivial = cases in the classes same-entries-different-shape, strict prefix/suffix, one value differs, host-bit-only difference, empty vs non-empty; distinct by hash of the case",
+                assumptions: vec!["oracle for ==: equality of the two Vec<(P, T)> entry sequences under the types' own PartialEq".into(), "serde round-trips: maps on ipnet/ipnetwork key types (keys serialise as strings), sets additionally on the integer tuple types up to 64 bit; cidr types have no serde support enabled in this build".into()],
+            },
+        )),
+        _ => None,
+    }
+}
+
 pub fn run_check(id: &str, tier: &str, seed: u64, replay: Option<&str>) -> i32 {
     let t0 = Instant::now();
     if replay.is_none() {
@@ -257,24 +353,52 @@ pub fn run_check(id: &str, tier: &str, seed: u64, replay: Option<&str>) -> i32 {
             }
         }
     }
-    if let Some((mut spec, info)) = hist_spec(id, tier) {
-        if id == "C15" {
-            // half of the budget on the canonical sub-alphabet is added by a second spec below
-        }
-        let o = match replay {
-            Some(p) => replay_hist(&spec, p),
-            None => {
-                let mut o = run_hist_check(&spec, seed);
-                if o.violation.is_none() && (id == "C15" || id == "C16") {
-                    spec.weights = Weights::canonical();
-                    spec.label = if id == "C15" { "C15canon" } else { "C16canon" };
-                    let o2 = run_hist_check(&spec, seed);
-                    o.merge(o2);
+    let Some((parts, info)) = parts(id, tier) else {
+        eprintln!("unknown property id {id}");
+        return 2;
+    };
+    let mut o = Outcome::default();
+    match replay {
+        Some(p) => {
+            // the replay file says which part produced it
+            let txt = std::fs::read_to_string(p).unwrap_or_default();
+            let is_pair = txt.contains("\"nav_a\"") && txt.contains("\"mode\"");
+            for part in &parts {
+                match part {
+                    Part::C17 => {
+                        o = crate::c17::replay_c17(p);
+                        break;
+                    }
+                    Part::C19 => {
+                        o = crate::c19::replay_c19(p);
+                        break;
+                    }
+                    Part::Hist(s) if !is_pair => {
+                        o = replay_hist(s, p);
+                        break;
+                    }
+                    Part::Pair(s) if is_pair => {
+                        o = replay_pair(s, p);
+                        break;
+                    }
+                    _ => {}
                 }
-                o
             }
-        };
-        if replay.is_none() {
+            o.is_replay = true;
+        }
+        None => {
+            for part in &parts {
+                let o2 = match part {
+                    Part::Hist(s) => run_hist_check(s, seed),
+                    Part::Pair(s) => run_pair_check(s, seed),
+                    Part::C17 => crate::c17::run_c17(tier, seed),
+                    Part::C19 => crate::c19::run_c19_check(tier, seed),
+                };
+                o.merge(o2);
+                if o.violation.is_some() {
+                    break;
+                }
+            }
             write_evidence(
                 &Report {
                     id,
@@ -288,8 +412,6 @@ pub fn run_check(id: &str, tier: &str, seed: u64, replay: Option<&str>) -> i32 {
                 &o,
             );
         }
-        return conclude(id, &o);
     }
-    eprintln!("unknown property id {id}");
-    2
+    conclude(id, &o)
 }
